@@ -1,8 +1,8 @@
 #!/bin/bash
 # usage: coqshow.sh <file.v relative to coq/> <line>  — print the goals after line N (debug aid)
-cd /verif/coq
+cd "$(dirname "$(readlink -f "$0")")/../coq"
 f=$1; n=$2
-mkdir -p /verif/build/show
-head -n "$n" "$f" > /verif/build/show/Show_tmp.v
-printf '\nShow.\n' >> /verif/build/show/Show_tmp.v
-timeout 120 coqc -Q . PG -w -notation-overridden /verif/build/show/Show_tmp.v 2>&1 | head -${3:-80}
+mkdir -p ../build/show
+head -n "$n" "$f" > ../build/show/Show_tmp.v
+printf '\nShow.\n' >> ../build/show/Show_tmp.v
+timeout 120 coqc -Q . PG -w -notation-overridden ../build/show/Show_tmp.v 2>&1 | head -${3:-80}
